@@ -301,13 +301,12 @@ Qed.
 (* THE statement: the word found in the image at a label-bearing AArch64 instruction - the instruction emitted with a zero displacement
    field OR-ed with the encoded displacement `off` (what bind_label / resolve_cross_section_fixups / relocate_to_base write) - decodes,
    by the structural decoder, to that very instruction with displacement off, and designates pc + off (ADRP: Page(pc) + off) *)
-Theorem a64_patched_meaning i off m pc :
+Lemma a64_patched_word i off m :
   a64_wf (set_imm i 0) -> hole_ok (kind_of i) (a64_enc (set_imm i 0)) = true -> int64 off ->
   encode_offset (fmt_of_kind (kind_of i)) off = Some m ->
   let w := Z.lor (a64_enc (set_imm i 0)) m in
   let v := off / 2 ^ discard (fmt_of_kind (kind_of i)) in
-  a64_dec w = Some (set_imm i v) /\
-  a64_site_target pc w = Some (match i with IAdr true _ _ => ((pc - pc mod 4096) + off) mod 2 ^ 64 | _ => (pc + off) mod 2 ^ 64 end).
+  w = a64_enc (set_imm i v) /\ a64_wf (set_imm i v) /\ off = v * 2 ^ discard (fmt_of_kind (kind_of i)).
 Proof.
   intros Hwf Hh Hi He w v.
   destruct (hole_ok_spec _ _ Hh) as (Hw0 & Hz).
@@ -332,11 +331,23 @@ Proof.
       replace (kind_mask (kind_of (IAdr p r x))) with a64_adr_mask by (destruct p; reflexivity).
       split; [exact Hout|]. vm_compute. discriminate. }
   destruct Hform as (Hd & Hmv & Hwfv & Hout & Hmask).
-  assert (Ew : w = a64_enc (set_imm i v)).
-  { unfold w. rewrite lor_disjoint_add by (eapply land_disjoint; eauto). rewrite (enc_set_imm i v), Hmv. reflexivity. }
+  split; [|split; [exact Hwfv|]].
+  - unfold w. rewrite lor_disjoint_add by (eapply land_disjoint; eauto). rewrite (enc_set_imm i v), Hmv. reflexivity.
+  - unfold v; symmetry; apply div_pow2_exact; [destruct i as [| | | |[|]|]; simpl; lia|exact Hd].
+Qed.
+
+Theorem a64_patched_meaning i off m pc :
+  a64_wf (set_imm i 0) -> hole_ok (kind_of i) (a64_enc (set_imm i 0)) = true -> int64 off ->
+  encode_offset (fmt_of_kind (kind_of i)) off = Some m ->
+  let w := Z.lor (a64_enc (set_imm i 0)) m in
+  let v := off / 2 ^ discard (fmt_of_kind (kind_of i)) in
+  a64_dec w = Some (set_imm i v) /\
+  a64_site_target pc w = Some (match i with IAdr true _ _ => ((pc - pc mod 4096) + off) mod 2 ^ 64 | _ => (pc + off) mod 2 ^ 64 end).
+Proof.
+  intros Hwf Hh Hi He w v.
+  destruct (a64_patched_word i off m Hwf Hh Hi He) as (Ew & Hwfv & Hoff). fold w in Ew. fold v in Ew, Hwfv, Hoff.
   assert (Hdec : a64_dec w = Some (set_imm i v)) by (rewrite Ew; apply a64_dec_enc; exact Hwfv).
   split; [exact Hdec|]. unfold a64_site_target. rewrite Hdec. f_equal.
-  assert (Hoff : off = v * 2 ^ discard (fmt_of_kind (kind_of i))) by (unfold v; symmetry; apply div_pow2_exact; [destruct i as [| | | |[|]|]; simpl; lia|exact Hd]).
   destruct i as [l x|c x|a b r x|a b c r x|[|] r x|o v' r x]; cbn [set_imm a64_target kind_of fmt_of_kind discard] in *;
     f_equal; rewrite Hoff; lits; try lia.
 Qed.
